@@ -110,7 +110,7 @@ Section Proc.
     intros h0 steps. induction steps as [|x steps IH] using rev_ind.
     - simpl. lia.
     - rewrite prun_snoc. set (s := prun h0 steps) in *. destruct x; simpl.
-      + unfold Processor.enqueue. destruct (stopped s); [exact IH|].
+      + unfold Processor.enqueue. destruct (quitf s || stopped s); [exact IH|].
         destruct ((cap_n <? held_n s + batch_num b) || (cap_s <? held_s s + batch_size b)) eqn:E; simpl; [exact IH|].
         apply orb_false_iff in E. destruct E as [E1 E2]. apply N.ltb_ge in E1, E2. lia.
       + unfold arrive. destruct (stopped s); simpl; exact IH.
@@ -118,7 +118,9 @@ Section Proc.
       + unfold Processor.stop. destruct (stopped s); [exact IH|]. simpl.
         match goal with |- context [fold_left apply_out ?l ?s0] =>
           pose proof (frame_fold_apply l s0) as F end.
-        destruct F as [_ [_ [_ [A B]]]]. destruct (queue s); simpl in *; lia.
+        destruct F as [_ [_ [_ [A B]]]]. destruct (queue s); [|destruct (quitf s)]; simpl in *; lia.
+      + unfold quit. destruct (stopped s); simpl; exact IH.
+      + unfold abort. destruct (stopped s || negb (quitf s)); [exact IH|]. destruct (queue s); simpl; exact IH.
   Qed.
 
   (* ---------- (2) ordered batches *)
@@ -175,9 +177,9 @@ Section Proc.
           destruct (Xq b eq_refl bs' Hbs' Eb) as [Z|Z].
           * rewrite Z. reflexivity.
           * destruct (Xe b eq_refl) as [G|G]; [rewrite G, firstn_nil; reflexivity | contradiction]. }
-    destruct x as [b0 | bid pos | | ]; simpl.
+    destruct x as [b0 | bid pos | | | | ]; simpl.
     - (* SEnq *)
-      unfold Processor.enqueue. destruct (stopped s) eqn:St.
+      unfold Processor.enqueue. destruct (quitf s || stopped s) eqn:St.
       + apply Same; auto.
         * intros bs' Hb; exists bs'; auto.
         * intros b Eb. inversion Eb; subst b.
@@ -319,9 +321,9 @@ Section Proc.
     - (* SStop *)
       unfold Processor.stop. destruct (stopped s).
       { apply Same; auto; try (intros; discriminate). intros bs' Hb; exists bs'; auto. }
-      set (s0 := match queue s with bs :: _ => pemit s (PAborted (b_id (bs_batch bs))) | [] => s end).
+      set (s0 := match queue s with bs :: _ => if quitf s then s else pemit s (PAborted (b_id (bs_batch bs))) | [] => s end).
       assert (E0 : Hd s0 = Hd s /\ queue s0 = queue s).
-      { unfold s0. destruct (queue s) eqn:Q; [auto|]. split; [reflexivity | simpl; exact Q]. }
+      { unfold s0. destruct (queue s) eqn:Q; [auto|]. destruct (quitf s); [auto|]. split; [reflexivity | simpl; exact Q]. }
       destruct E0 as [E0 Q0].
       match goal with |- context [fold_left apply_out ?l ?sx] =>
         destruct (fold_apply_log l sx) as [new [L F]]; pose proof (frame_fold_apply l sx) as Fr end.
@@ -333,6 +335,19 @@ Section Proc.
       + unfold pemit; cbn [queue]; rewrite Fq; unfold set_buf; cbn [queue]; rewrite Q0.
         intros bs' Hb; exists bs'; auto.
       + unfold pemit; cbn [queue]; rewrite Fq; unfold set_buf; cbn [queue]; rewrite Q0. exact Iqnd.
+    - (* SQuit *)
+      unfold quit. destruct (stopped s); apply Same; auto; try (intros; discriminate); intros bs' Hb; exists bs'; auto.
+    - (* SAbort: the head batch is dropped *)
+      unfold abort. destruct (stopped s || negb (quitf s)).
+      { apply Same; auto; try (intros; discriminate). intros bs' Hb; exists bs'; auto. }
+      destruct (queue s) as [|bs rest] eqn:Q.
+      { apply Same; auto; try (intros; discriminate).
+        - intros bs' Hb. rewrite Q in Hb. destruct Hb.
+        - rewrite Q. constructor. }
+      apply Same; try (intros; discriminate).
+      + reflexivity.
+      + simpl. intros bs' Hb. exists bs'. split; [right; auto | auto].
+      + simpl. simpl in Iqnd. eapply NoDup_app_r; eauto.
   Qed.
 
   Lemma OI_run : forall h0 steps, NoDup (all_g steps) -> OI steps (prun h0 steps).
